@@ -113,15 +113,20 @@ pub fn run_random(rec: &mut Rec, seed: u64, run: u64, nops: usize) {
                     Ok(x) => json!({"res": "ok", "ret": s(x.return_amount.u128()), "sf": s(x.swap_fee_amount.u128()), "pf": s(x.protocol_fee_amount.u128()), "bf": s(x.burn_fee_amount.u128()), "spread": s(x.spread_amount.u128())}),
                     Err(_) => json!({"res": "rejected", "ret": "0", "sf": "0", "pf": "0", "bf": "0", "spread": "0"}) };
                 dpre = f.w.digest();
+                let wrong = matches!(tp.assets[i], A::Cw20(_)) && r.gen_range(0..8) == 0;
                 rs = match &tp.assets[i] {
                     A::Native(dn) => f.w.exec(&user, &tp.trio.clone(), &ExecuteMsg::Swap { offer_asset: tp.assets[i].asset(offer), ask_asset: tp.assets[j].info(),
                         belief_price: None, max_spread: Some(dec("0.5")), to: None }, &[coin(offer, dn.as_str())]),
+                    // one in eight cw20 offers is named in the direct message (for native offers only) with one coin of the first
+                    // asset attached instead of the tokens: nothing is paid in, it must be refused
+                    A::Cw20(_) if wrong => f.w.exec(&user, &tp.trio.clone(), &ExecuteMsg::Swap { offer_asset: tp.assets[i].asset(offer), ask_asset: tp.assets[j].info(),
+                        belief_price: None, max_spread: Some(dec("0.5")), to: None }, &[coin(1, "uwhale")]),
                     A::Cw20(t) => f.w.cw20_send(&user, &t.clone(), &tp.trio.clone(), offer, &Cw20HookMsg::Swap { ask_asset: tp.assets[j].info(), belief_price: None, max_spread: Some(dec("0.5")), to: None }),
                 };
                 dpost = f.w.digest();
                 name = "swap"; actor = "user1";
                 let g = |k: &str| rs.attr("swap", k).unwrap_or("0".into());
-                args = json!({"i": i + 1, "j": j + 1, "k": k + 1, "offer": s(offer), "amp": cur.to_string(), "curve": curve, "sim": sim,
+                args = json!({"i": i + 1, "j": j + 1, "k": k + 1, "offer": s(offer), "amp": cur.to_string(), "curve": curve, "wrong_path": wrong, "sim": sim,
                     "out": {"ret": g("return_amount"), "sf": g("swap_fee_amount"), "pf": g("protocol_fee_amount"), "bf": g("burn_fee_amount"), "spread": g("spread_amount")}});
             }
             85..=87 => {
